@@ -361,6 +361,12 @@ def explore(ctx):
             _explore_tree(ctx, report,
                           lambda p, k=k, model=model: {"model": model, "n1": 1, "prefix1": [], "kill": [0, k, "cc"], "n2": 1, "prefix2": p},
                           0, "killcc:%s:k%d" % (model, k), phase_key="p2", prefix_key="prefix2")
+        # the builder is INTERRUPTED (SIGINT to its process group, as Ctrl-C does): the compiler dies, the loader
+        # unwinds through its handlers; then one fresh loader
+        for k in range(1, npoints):
+            _explore_tree(ctx, report,
+                          lambda p, k=k, model=model: {"model": model, "n1": 1, "prefix1": [], "kill": [0, k, "int"], "n2": 1, "prefix2": p},
+                          0, "killint:%s:k%d" % (model, k), phase_key="p2", prefix_key="prefix2")
         # a victim killed while a second loader runs concurrently, followed by one fresh loader
         kb = 0 if quick else 2
         STATE["stop"] = len(report.fails) >= STOP_AFTER
